@@ -1,13 +1,15 @@
 (* C20 - Decoding canonicalises: decode-encode-decode equals decode.
-   Proved for SOME/IP messages (with byte equality of the consumed input) and for SD entries (also byte-equal).
-   PARTIAL: for SD options and whole SD messages the statement
-     C20_option : bytes_ok b -> parse_option b = Ok (o, r) -> exists b', build_option o = Ok b' /\ parse_option b' = Ok (o, [])
-     C20_sd     : the same for parse_sd / build_sd
-   is not yet proved for every accepted input; proved instead: every option / message inside wf_opt / wf_sd
-   re-decodes to itself (C20_option_wf, C20_sd_wf).  The correspondence runs the full cycle on the
-   implementation for every accepted input it generates. *)
+   Proved for EVERY accepted input of all four decoders:
+     SOME/IP messages (with byte equality of the consumed input), SD entries (also byte-equal),
+     SD options and whole SD messages (decode . encode . decode = decode, nothing left over; the rebuilt bytes may
+     differ from the input exactly where the decoder is lenient: reserved bytes, the ignored tail of a
+     configuration option).  What the decoder keeps (unknown option types with payloads, unknown flag bits, unknown
+     protocol numbers, unreferenced options, raw indexes and counts) is part of the decoded VALUE, so equality of the
+     values is the "survives unchanged" clause.
+   The correspondence runs the same cycle on the implementation for every accepted input it generates. *)
 From PS Require Import Lib.Base Lib.Struct Generated.Consts Model.SdTypes Model.Someip Model.SdCodec Spec.C01Spec.
-From PS Require Import Proofs.C01Proofs Proofs.SdEntryProofs Proofs.SdOptionProofs Proofs.SdHeaderProofs.
+From PS Require Import Proofs.C01Proofs Proofs.SdEntryProofs Proofs.SdOptionProofs Proofs.SdHeaderProofs
+  Proofs.C20OptionProofs Proofs.C20SdProofs.
 
 Theorem C20_someip : forall b m r, bytes_ok b -> parse_msg b = Ok (m, r) ->
   exists b', build_msg m = Ok b' /\ b = b' ++ r /\ parse_msg b' = Ok (m, []).
@@ -21,13 +23,54 @@ Theorem C20_entry : forall b n e r, bytes_ok b -> parse_entry b n = Ok (e, r) ->
   wf_entry e n /\ exists b', build_entry e = Ok b' /\ b = b' ++ r /\ parse_entry b' n = Ok (e, []).
 Proof. exact entry_canonical. Qed.
 
-Theorem C20_option_wf_partial : forall o b, wf_opt o -> build_option o = Ok b -> parse_option b = Ok (o, []).
+Theorem C20_option : forall b o r, bytes_ok b -> parse_option b = Ok (o, r) ->
+  exists b', build_option o = Ok b' /\ parse_option b' = Ok (o, []).
+Proof. exact option_canonical. Qed.
+
+Theorem C20_sd : forall b a r, bytes_ok b -> parse_sd b = Ok (a, r) ->
+  exists b', build_sd a = Ok b' /\ parse_sd b' = Ok (a, []).
+Proof. exact sd_canonical. Qed.
+
+(* the image of the decoders: what they accept is exactly what the round-trip theorems are about, and re-encoding
+   never needs more bytes than were consumed *)
+Theorem C20_option_image : forall b o r, bytes_ok b -> parse_option b = Ok (o, r) ->
+  wf_opt o /\ bytes_ok r /\ exists b', build_option o = Ok b' /\ len b' + len r <= len b.
+Proof. exact option_image. Qed.
+
+Theorem C20_sd_image : forall b a r, bytes_ok b -> parse_sd b = Ok (a, r) -> wf_sd a /\ exists b', build_sd a = Ok b'.
+Proof. exact sd_image. Qed.
+
+(* a configuration option is accepted exactly as: the items' encodings, a zero length byte, an ignored tail *)
+Theorem C20_config_items_are_all_the_decoder_keeps : forall fuel nl b acc res, bytes_ok (nl :: b) ->
+  parse_cfgs fuel nl b acc = Ok res ->
+  exists items tail, res = rev acc ++ items /\ nl :: b = concat (map enc_item items) ++ 0 :: tail
+                     /\ Forall wf_cfg items /\ Forall good_cfg items.
+Proof. exact parse_cfgs_image. Qed.
+
+Theorem C20_option_wf : forall o b, wf_opt o -> build_option o = Ok b -> parse_option b = Ok (o, []).
 Proof. intros o b Hwf Hb. rewrite <- (app_nil_r b). apply option_roundtrip; assumption. Qed.
 
-Theorem C20_sd_wf_partial : forall a b, wf_sd a -> build_sd a = Ok b -> parse_sd b = Ok (a, []).
+Theorem C20_sd_wf : forall a b, wf_sd a -> build_sd a = Ok b -> parse_sd b = Ok (a, []).
 Proof. exact sd_roundtrip. Qed.
+
+(* non-vacuity: a lenient input (non-zero reserved byte, garbage after the terminating zero) is accepted, and its
+   canonical re-encoding is a different, shorter byte string that decodes to the same value *)
+Example C20_example :
+  let b := [0; 8; 1; 85; 3; 97; 61; 98; 0; 170; 187] in
+  let b' := [0; 6; 1; 0; 3; 97; 61; 98; 0] in
+  bytes_ok b /\ parse_option b = Ok (OConfig [([97], Some [98])], [])
+  /\ build_option (OConfig [([97], Some [98])]) = Ok b' /\ parse_option b' = Ok (OConfig [([97], Some [98])], []).
+Proof.
+  cbv zeta. split; [repeat constructor|]. split; [vm_compute; reflexivity|]. split; vm_compute; reflexivity.
+Qed.
 
 Print Assumptions C20_someip.
 Print Assumptions C20_entry.
-Print Assumptions C20_option_wf_partial.
-Print Assumptions C20_sd_wf_partial.
+Print Assumptions C20_option.
+Print Assumptions C20_sd.
+Print Assumptions C20_option_image.
+Print Assumptions C20_sd_image.
+Print Assumptions C20_config_items_are_all_the_decoder_keeps.
+Print Assumptions C20_option_wf.
+Print Assumptions C20_sd_wf.
+Print Assumptions C20_example.
